@@ -16,6 +16,8 @@ import time
 
 import z3
 
+from . import seqs as Q
+
 from . import locate, solve
 from .api import Contract, Registry, parse_expr
 from .ty import *      # noqa
@@ -63,6 +65,7 @@ class Engine:
             self.U.add_record(rec)
         self.obls: list[Obligation] = []
         self.axioms = []
+        self.wf_axioms = []      # engine-generated well-formedness facts (canonical lists): dropped for model search only
         self.ufs = {}
         self.exc_ids = {}
         self.n = itertools.count()
@@ -93,13 +96,56 @@ class Engine:
     def fresh(self, ty, hint="v"):
         if ty is NONE:
             return SVal(None, NONE)
-        return SVal(z3.Const(self.fresh_name(hint), self.U.sort(ty)), ty)
+        c = z3.Const(self.fresh_name(hint), self.U.sort(ty))
+        w = self.wf(c, ty)
+        if w is not None:
+            self.wf_axioms.append(w)
+        return SVal(c, ty)
+
+    def wf(self, t, ty, depth=0):
+        """well-formedness of a symbolic value: lists are in canonical form (see seqs.py); None if nothing to say"""
+        if isinstance(ty, TList):
+            return Q.Canonical(t)
+        if depth > 1:
+            return None
+        if isinstance(ty, TOpt):
+            dt = self.U.dt(ty)
+            w = self.wf(dt.get(t), ty.inner, depth + 1)
+            return None if w is None else z3.Implies(dt.is_some(t), w)
+        if isinstance(ty, TTuple):
+            dt = self.U.dt(ty)
+            ws = [self.wf(dt.accessor(0, i)(t), e, depth + 1) for i, e in enumerate(ty.elems)]
+            ws = [w for w in ws if w is not None]
+            return z3.And(ws) if ws else None
+        if isinstance(ty, TVal):
+            dt = self.U.dt(ty)
+            ws = [self.wf(dt.accessor(0, i)(t), fty, depth + 1) for i, fty in enumerate(self.U.all_fields(ty.cls).values())]
+            ws = [w for w in ws if w is not None]
+            return z3.And(ws) if ws else None
+        return None
+
+    def wf_array(self, arr, ty):
+        """forall r. wf(arr[r]) for a heap array version"""
+        r = z3.Const("r!wf", self.U.Ref)
+        w = self.wf(arr[r], ty)
+        if w is not None:
+            self.wf_axioms.append(z3.ForAll([r], w, patterns=[arr[r]]))
+
+    def wf_function(self, f, arg_sorts, res_ty=None):
+        """forall args. canonical(f(args)) for an uninterpreted function returning a list"""
+        rs = f.range()
+        if not Q.is_list_sort(rs):
+            return
+        consts = [z3.Const(f"a!wf{i}", s) for i, s in enumerate(arg_sorts)]
+        app = f(*consts)
+        self.wf_axioms.append(z3.ForAll(consts, Q.Canonical(app), patterns=[app]) if consts else Q.Canonical(app))
 
     def uf(self, name, arg_sorts, res_sort):
         key = (name, tuple(str(s) for s in arg_sorts), str(res_sort))
         if key not in self.ufs:
             self.ufs[key] = z3.Function(name + ("" if len([k for k in self.ufs if k[0] == name]) == 0 else f"!{len(self.ufs)}"),
                                         *arg_sorts, res_sort)
+            self.wf_function(self.ufs[key], list(arg_sorts))
         return self.ufs[key]
 
     def const(self, v):
@@ -174,11 +220,11 @@ class Engine:
         if ty is INT:
             return v.t != 0
         if ty is STR:
-            return z3.Length(v.t) > 0
+            return Q.Length(v.t) > 0
         if ty is NONE:
             return z3.BoolVal(False)
         if isinstance(ty, TList):
-            return z3.Length(v.t) > 0
+            return Q.Length(v.t) > 0
         if isinstance(ty, TSet):
             return v.t != z3.K(self.U.sort(ty.elem), z3.BoolVal(False))
         if isinstance(ty, TDict):
@@ -237,10 +283,10 @@ class Engine:
                 if isinstance(o, tuple) and not (want is not None and isinstance(want, TList)):
                     return self.materialize(STuple(items), st, want)
                 ety = items[0].ty if items else (want.elem if isinstance(want, TList) else STR)
-                t = z3.Empty(self.U.sort(TList(ety)))
+                t = Q.Empty(self.U.sort(TList(ety)))
                 for it in items:
-                    t = z3.Concat(t, z3.Unit(it.t))
-                return SVal(t if items else z3.Empty(self.U.sort(TList(ety))), TList(ety))
+                    t = Q.Concat(t, Q.Unit(it.t))
+                return SVal(t if items else Q.Empty(self.U.sort(TList(ety))), TList(ety))
             if isinstance(o, type) and issubclass(o, BaseException):
                 raise OutsideSubset(f"exception class as value {o}")
             # opaque constant: a named constant of sort U
@@ -253,9 +299,9 @@ class Engine:
         if isinstance(v, STuple):
             if want is not None and isinstance(want, TList):
                 items = [self.coerce(self.materialize(i, st, want.elem), want.elem, st) for i in v.items]
-                t = z3.Empty(self.U.sort(want))
+                t = Q.Empty(self.U.sort(want))
                 for it in items:
-                    t = z3.Concat(t, z3.Unit(it.t)) if True else t
+                    t = Q.Concat(t, Q.Unit(it.t)) if True else t
                 return SVal(t, want)
             if want is not None and isinstance(want, TTuple):
                 items = [self.coerce(self.materialize(i, st, w), w, st) for i, w in zip(v.items, want.elems)]
@@ -271,7 +317,7 @@ class Engine:
         if isinstance(ty, TOpt):
             ty = ty.inner
         if isinstance(ty, TList):
-            return SVal(z3.Empty(self.U.sort(ty)), ty)
+            return SVal(Q.Empty(self.U.sort(ty)), ty)
         if isinstance(ty, TSet):
             return SVal(z3.K(self.U.sort(ty.elem), z3.BoolVal(False)), ty)
         if isinstance(ty, TDict):
@@ -321,9 +367,9 @@ class Engine:
             return SVal(v.t, ty)
         if isinstance(ty, TList) and isinstance(v.ty, TTuple) and all(e == ty.elem for e in v.ty.elems):
             dt = self.U.dt(v.ty)
-            t = z3.Empty(self.U.sort(ty))
+            t = Q.Empty(self.U.sort(ty))
             for i in range(len(v.ty.elems)):
-                t = z3.Concat(t, z3.Unit(dt.accessor(0, i)(v.t)))
+                t = Q.Concat(t, Q.Unit(dt.accessor(0, i)(v.t)))
             return SVal(t, ty)
         if isinstance(ty, TDict) and isinstance(v.ty, TDict) and self.U.sort(ty) == self.U.sort(v.ty):
             return SVal(v.t, ty)
@@ -410,8 +456,21 @@ class Engine:
         r = solve.check_sat(self.axioms_now() + cs, 300)
         return r != "unsat"
 
-    def axioms_now(self):
-        return list(self.axioms) + self.hierarchy_axioms()
+    def axioms_now(self, wf=True):
+        return list(self.axioms) + (list(self.wf_axioms) if wf else []) + self.hierarchy_axioms()
+
+    def satisfiable(self, constraints, ms=3000):
+        """model search for vacuity/cover checks: 'sat' | 'unsat' | 'unknown'.  If the full query is `unknown`, the
+        list well-formedness axioms (which only fix the unobservable cells outside [0,len)) are dropped and the search
+        is repeated; a model found that way is accepted and the fact is recorded as an assumption."""
+        r = solve.check_sat(self.axioms_now() + list(constraints), ms)
+        if r != "unknown":
+            return r
+        r2 = solve.check_sat(self.axioms_now(wf=False) + list(constraints), ms)
+        if r2 == "sat":
+            self.assumptions.add("cover/vacuity model search drops the list-canonical-form axioms when the full query is `unknown`")
+            return "sat"
+        return "unknown"
 
     def branch(self, st, c):
         c = z3.simplify(c)
@@ -426,6 +485,7 @@ class Engine:
             if self.feasible(st, cc):
                 s2 = st.copy()
                 s2.assume(cc)
+                s2.bmarks.append(len(s2.pc) - 1)
                 out.append((b, s2))
         self.paths += max(0, len(out) - 1)
         if self.paths > MAX_PATHS:
@@ -475,6 +535,7 @@ class Engine:
         if key not in st.heap:
             arr = z3.Const(f"H0_{field}_{_m(ty.key)}", z3.ArraySort(self.U.Ref, self.U.sort(ty)))
             st.heap[key] = arr
+            self.wf_array(arr, ty)
             self.heap_birth_axioms(st, arr, ty, st.clock if st.old is not None else z3.IntVal(0), base=True)
         return st.heap[key]
 
@@ -489,7 +550,7 @@ class Engine:
             ax = z3.ForAll([r], self.born(dt.get(arr[r])) <= clock, patterns=[arr[r]])
         elif isinstance(ty, TList) and isinstance(ty.elem, TRef):
             i = z3.Int("i!hb")
-            ax = z3.ForAll([r, i], self.born(arr[r][i]) <= clock, patterns=[arr[r][i]])
+            ax = z3.ForAll([r, i], self.born(Q.At(arr[r], i)) <= clock, patterns=[Q.At(arr[r], i)])
         if ax is not None:
             if base:
                 if not any(ax.eq(a) for a in self.axioms):
@@ -537,7 +598,7 @@ class Engine:
                 dt = self.U.dt(base.ty)
                 return SVal(z3.Select(dt.val(base.t), self.coerce(lv.b, base.ty.k, st).t), base.ty.v)
             if isinstance(base.ty, TList):
-                return SVal(base.t[self.coerce(lv.b, INT, st).t], base.ty.elem)
+                return SVal(Q.At(base.t, self.coerce(lv.b, INT, st).t), base.ty.elem)
         raise OutsideSubset(f"read of lvalue {lv}")
 
     def assign_lv(self, st, lv, val):
@@ -568,8 +629,8 @@ class Engine:
             elif isinstance(base.ty, TList):
                 i = self.coerce(lv.b, INT, st)
                 v = self.coerce(val, base.ty.elem, st)
-                n = z3.Length(base.t)
-                nb = SVal(z3.Concat(z3.Extract(base.t, 0, i.t), z3.Unit(v.t), z3.Extract(base.t, i.t + 1, n - i.t - 1)), base.ty)
+                n = Q.Length(base.t)
+                nb = SVal(Q.Concat(Q.Extract(base.t, 0, i.t), Q.Unit(v.t), Q.Extract(base.t, i.t + 1, n - i.t - 1)), base.ty)
             else:
                 raise OutsideSubset(f"subscript store into {base.ty}")
             if optty is not None:
@@ -686,8 +747,8 @@ class Engine:
             ety = _join_tys([i.ty for i in items])
             t = None
             for it in items:
-                u = z3.Unit(self.coerce(it, ety, s).t)
-                t = u if t is None else z3.Concat(t, u)
+                u = Q.Unit(self.coerce(it, ety, s).t)
+                t = u if t is None else Q.Concat(t, u)
             yield s, SVal(t, TList(ety))
 
     def ev_Set(self, node, st):
@@ -712,13 +773,13 @@ class Engine:
                 return
             p = node.values[i]
             if isinstance(p, ast.Constant):
-                yield from rec(i + 1, s, z3.Concat(acc, z3.StringVal(p.value)) if acc is not None else z3.StringVal(p.value))
+                yield from rec(i + 1, s, Q.Concat(acc, z3.StringVal(p.value)) if acc is not None else z3.StringVal(p.value))
             else:
                 if p.format_spec is not None or p.conversion not in (-1, 115):
                     raise OutsideSubset("f-string format spec")
                 for s2, v in self.ev(p.value, s):
                     sv = self.to_str(v, s2)
-                    yield from rec(i + 1, s2, z3.Concat(acc, sv.t) if acc is not None else sv.t)
+                    yield from rec(i + 1, s2, Q.Concat(acc, sv.t) if acc is not None else sv.t)
         yield from rec(0, st, z3.StringVal("") if not node.values else None)
 
     def to_str(self, v, st):
@@ -744,7 +805,7 @@ class Engine:
     def ev1p(self, node, st):
         outs = list(self.ev(node, st))
         if len(outs) != 1:
-            raise OutsideSubset("pure evaluation forked")
+            raise OutsideSubset(f"pure evaluation of `{ast.unparse(node)[:80]}` produced {len(outs)} continuations")
         return outs[0][1]
 
     def ite(self, c, a, b, st):
@@ -858,12 +919,12 @@ class Engine:
             yield st, SVal({ast.Add: x + y, ast.Sub: x - y, ast.Mult: x * y}[type(op)], INT)
             return
         if isinstance(op, ast.Add) and ta is STR and tb is STR:
-            yield st, SVal(z3.Concat(a.t, b.t), STR)
+            yield st, SVal(Q.Concat(a.t, b.t), STR)
             return
         if isinstance(op, ast.Add) and isinstance(ta, TList) and isinstance(tb, TList):
             if self.U.sort(ta) != self.U.sort(tb):
                 raise OutsideSubset(f"list + list of different element sorts {ta} {tb}")
-            yield st, SVal(z3.Concat(a.t, b.t), ta)
+            yield st, SVal(Q.Concat(a.t, b.t), ta)
             return
         if isinstance(op, ast.BitOr) and isinstance(ta, TSet) and isinstance(tb, TSet):
             yield st, SVal(self.set_union(a.t, b.t, ta), ta)
@@ -990,6 +1051,10 @@ class Engine:
             return
         raise OutsideSubset(f"comparison {type(op).__name__} on {a.ty}, {b.ty}")
 
+    def seq_member(self, seq, x):
+        """x in seq, as an index quantifier (z3 relates seq.contains and seq.nth poorly)"""
+        return Q.Member(seq, x, self.fresh_name("mi"))
+
     def contains(self, container, x, st):
         if isinstance(container, STuple):
             return z3.Or([self.eq(x, it, st) for it in container.items]) if container.items else z3.BoolVal(False)
@@ -1010,7 +1075,7 @@ class Engine:
         ty = c.ty
         if isinstance(ty, TList):
             xv = self.coerce(x, ty.elem, st)
-            return z3.Contains(c.t, z3.Unit(xv.t))
+            return self.seq_member(c.t, xv.t)
         if isinstance(ty, TSet):
             return z3.Select(c.t, self.coerce(x, ty.elem, st).t)
         if isinstance(ty, TDict):
@@ -1134,7 +1199,7 @@ class Engine:
                     s2, b = self.unwrap(b, s2, "slice")
                     if s2 is None:
                         continue
-                n = z3.Length(b.t)
+                n = Q.Length(b.t)
 
                 def norm(x, dflt):
                     if x is None:
@@ -1148,7 +1213,7 @@ class Engine:
                 clamp = lambda e: z3.If(e < 0, 0, z3.If(e > n, n, e))
                 l, h = clamp(l), clamp(h)
                 if isinstance(b.ty, TList) or b.ty is STR:
-                    yield s2, SVal(z3.simplify(z3.Extract(b.t, l, z3.If(h - l < 0, 0, h - l))), b.ty)
+                    yield s2, SVal(z3.simplify(Q.Extract(b.t, l, z3.If(h - l < 0, 0, h - l))), b.ty)
                 else:
                     raise OutsideSubset(f"slice of {b.ty}")
 
@@ -1178,7 +1243,7 @@ class Engine:
         lvb = base.origin
         if isinstance(ty, TList) or ty is STR:
             i = self.coerce(idx, INT, st)
-            n = z3.Length(base.t)
+            n = Q.Length(base.t)
             it = i.t
             if z3.is_int_value(it) and it.as_long() < 0:
                 it = n + it
@@ -1194,7 +1259,7 @@ class Engine:
             if ty is STR:
                 yield st, SVal(z3.SubString(base.t, it, 1), STR)
             else:
-                yield st, SVal(base.t[it], ty.elem, LV("key", lvb, SVal(it, INT)) if lvb is not None else None)
+                yield st, SVal(Q.At(base.t, it), ty.elem, LV("key", lvb, SVal(it, INT)) if lvb is not None else None)
             return
         if isinstance(ty, TDict):
             k = self.coerce(idx, ty.k, st)
